@@ -94,7 +94,7 @@ TECHNIQUE = {
 
 # properties whose builder-written rule has been reviewed, is silent on the unchanged tree and passes its self-test
 INTEGRATED = ["C21", "C24", "C09", "C32", "C29", "C36", "C12", "C39", "C33", "C13", "C14", "C15", "C16", "C40",
-              "C34", "C38", "C37", "C05", "C07", "C17", "C22", "C08", "C10", "C11"]
+              "C34", "C38", "C37", "C05", "C07", "C17", "C22", "C08", "C10", "C11", "C25", "C35"]
 
 
 def _load_integrated():
